@@ -386,7 +386,7 @@ Proof.
     by (inversion H; reflexivity).
   unfold sig_faithful, sig_comment.
   destruct (lookup key_eqb (msgid, ds_name ds) (ie_sig_enums env)) as [ei0|] eqn:Ee.
-  - match type of H0 with (if ?c then _ else _) = _ => destruct c; [discriminate|] end.
+  - apply bind_ok in H0. destruct H0 as [[ei es1] [_ H0]].
     inversion H0; subst s0. subst s.
     destruct (lookup key_eqb (msgid, ds_name ds) (ie_sig_desc env)); cbn; repeat split; reflexivity.
   - apply bind_ok in H0. destruct H0 as [s1 [H1 H0]]. inversion H0; subst s0 st0. clear H0.
